@@ -57,7 +57,12 @@ def main():
                      "kind_free_text": "Coq 8.16.1 theorems over Gallina models (coq/), tied to /repo by translators (vt/gen) and by differential runs of extracted OCaml models (ocaml/) against a snapshot of the working tree; property-oracle search on the real code"}],
         "checks": checks,
         "not_applicable": na,
-        "notes": "See DESIGN.md. known_findings.json lists recorded findings and fixed defects.",
+        "notes": ("See DESIGN.md (reading order: §2, §12.1, §12.2, §13). known_findings.json lists the 59 defects repaired by fix: commits and one "
+                  "recorded known finding (C11). seeded/ holds 151 independently written breaking changes with what catches each. Quick checks take "
+                  "10-90 s each on an idle 16-core machine (sum about 12 min); thorough checks 3-25 min each when run alone (C16-C18 and C20 "
+                  "are the longest: exhaustive replay of model states on the real queue / strace enumeration), several times longer when "
+                  "run concurrently. Two checks of the SAME property must not run at the same time with different VERIF_REPO values "
+                  "(they share coq/CXX/Gen_*.v)."),
     }
     with open(os.path.join(VERIF, "MANIFEST.json"), "w") as f:
         json.dump(m, f, indent=1)
